@@ -3,6 +3,7 @@
 import Mpir.Model.Cxx
 import Mathlib.Tactic.Ring
 import Mathlib.Tactic.Linarith
+import Mathlib.Algebra.Order.Ring.Rat
 namespace Mpir.Cxx
 
 theorem Heap.set_self (h : Heap) (p : ZLoc) : h.set p (h p) = h := by
@@ -563,5 +564,77 @@ theorem Post.of_set {k : Nat} {p : ZLoc} {h : Heap} {r : Option Int} :
   cases r with
   | none => rfl
   | some x => exact ⟨_, rfl, by simp, fun l _ hne => Heap.set_get_ne _ _ _ _ hne⟩
+
+
+/-! ### comparisons -/
+
+theorem qcmp_swap (x y : Rat) : qcmp y x = -(qcmp x y) := by
+  unfold qcmp
+  rcases lt_trichotomy x y with h | h | h
+  · have h1 : ¬ y < x := not_lt.mpr h.le
+    have h2 : y ≠ x := (ne_of_lt h).symm
+    simp [h, h1, h2]
+  · subst h; simp
+  · have h1 : ¬ x < y := not_lt.mpr h.le
+    have h2 : x ≠ y := (ne_of_lt h).symm
+    simp [h, h1, h2]
+
+theorem zcmp_eq_qcmp (x y : Int) : zcmp x y = qcmp (x : Rat) (y : Rat) := by
+  unfold zcmp qcmp
+  simp only [Rat.intCast_lt_intCast, Rat.intCast_inj]
+
+theorem qcmp_cases (x y : Rat) : qcmp x y = -1 ∨ qcmp x y = 0 ∨ qcmp x y = 1 := by
+  unfold qcmp; split <;> [skip; split] <;> simp
+
+/-- exact value of an operand of a comparison -/
+def argQ (h : Heap) : ZArg → Option Rat
+  | .loc l => some ((h l : Int) : Rat)
+  | .bi c => biRat c
+
+theorem CmpF.zArg_spec (h : Heap) (z : ZLoc) (b : ZArg) :
+    CmpF.zArg h z b = (argQ h b).map fun y => qcmp ((h z : Int) : Rat) y := by
+  cases b with
+  | loc w => simp [CmpF.zArg, argQ, zcmp_eq_qcmp]
+  | bi c => cases c <;> simp [CmpF.zArg, argQ, biRat, zcmp_eq_qcmp]
+
+/-- every comparison function object / operator returns the comparison of the exact values -/
+theorem fnCmpZ_spec (o : Cmp) (a b : ZArg) (h : Heap) (hab : ¬(a.isBi = true ∧ b.isBi = true)) :
+    fnCmpZ o a b h = (argQ h a).bind fun x => (argQ h b).map fun y => cmpRes o (qcmp x y) := by
+  cases a with
+  | loc z =>
+    cases o <;> simp only [fnCmpZ, CmpF.cmp, CmpF.equal, CmpF.less, CmpF.greater, CmpF.zArg_spec, argQ, Option.bind_some, Option.map_map] <;>
+      cases argQ h b <;> simp [cmpRes, b2i, Function.comp_def] <;>
+      try (rename_i y; rcases qcmp_cases ((h z : Int) : Rat) y with e | e | e <;> simp [e])
+  | bi c =>
+    cases b with
+    | bi c' => simp [ZArg.isBi] at hab
+    | loc z =>
+      cases o <;> simp only [fnCmpZ, CmpF.cmp, CmpF.equal, CmpF.less, CmpF.greater, CmpF.zArg_spec, argQ, Option.bind_some, Option.map_map, Option.map_some] <;>
+        cases biRat c <;> simp [cmpRes, b2i, Function.comp_def] <;>
+        try (rename_i y; rw [qcmp_swap ((h z : Int) : Rat) y] <;> (rcases qcmp_cases ((h z : Int) : Rat) y with e | e | e <;> simp [e]))
+
+/-- `const& temp(expr)`: the bound object holds the value of the operand; nothing that existed before changes -/
+theorem bindZ_correct (cst : Bool) (evalZ_ok : ∀ (e : E), e.ty = .z → e.wt = true →
+      ∀ (k : Nat) (p : ZLoc) (h : Heap), p.below k → e.zbelow k →
+        Post k p h (evalTmpZ (fun i => h (.v i)) e) (evalZ cst k p e h))
+    (e : E) (hty : e.ty = .z) (hwt : e.wt = true) (k : Nat) (h : Heap) (hb : e.zbelow k) :
+    match evalTmpZ (fun i => h (.v i)) e with
+    | none => bindZ cst k e h = none
+    | some x => ∃ l h', bindZ cst k e h = some (l, h') ∧ h' l = x ∧ l.below (k + 1) ∧ ∀ l' : ZLoc, l'.below k → h' l' = h l' := by
+  unfold bindZ
+  cases hl : e.zleaf? with
+  | some i =>
+    have := zleaf?_some hl; subst this
+    simp only [evalTmpZ]
+    exact ⟨.v i, h, rfl, rfl, by simp only [ZLoc.below, E.zbelow] at *; omega, fun _ _ => rfl⟩
+  | none =>
+    simp only []
+    have H := evalZ_ok e hty hwt (k + 1) (.v k) h (by simp [ZLoc.below]) (E.zbelow_mono (by omega) _ hb)
+    cases hr : evalTmpZ (fun i => h (.v i)) e with
+    | none => rw [hr] at H; simp only [Post] at H; simp [H]
+    | some x =>
+      rw [hr] at H
+      obtain ⟨h', e1, hx, hfr⟩ := H
+      exact ⟨.v k, h', by simp [e1], hx, by simp [ZLoc.below], fun l' hl' => hfr l' (ZLoc.below_mono (by omega) hl') (ZLoc.ne_of_below hl')⟩
 
 end Mpir.Cxx
